@@ -63,7 +63,29 @@ for _p in ("C03", "C20"):
                  "assumptions": ["asttokens / tokenize positions are (line, code-point column) pairs inside their line (InLines hypothesis of checkSorted_chained) — every recorded replacement is replayed through the model",
                                  "black is AST-preserving and idempotent on the generated files (validated: AST outside the arguments compared, black re-run on the result)"]}
 
+ASSIGN_RULE = ("seeded generator (harness/engines/assign.py): old argument = tree of list / tuple / dict displays (depth <= 3 quick, <= 4 thorough, width <= 4) with canonical "
+               "leaves, hand-written leaves (unique spellings `v+0*K`, also container-valued calls like list((1,2))), unmanaged leaves Is(..) / always-equal object / f-string, "
+               "star-expressions; new value derived by edits (delete / insert / replace / swap elements, dict key add / remove / reorder, other type, nested edits); flags fix / update "
+               "(+ create / trim); modes: single run, the same run twice (C08), every order of approving fix and update vs. both at once (C09); non-trivial = some change pending")
+EXT_RULE = ("seeded histories (harness/engines/external.py) over a project whose tests outsource data: steps {set the data of a test, delete a test, run a real session with "
+            "flags / review answers}, 3-8 steps, hash-length 1 / 2 / 12 / 64 (short lengths with deliberately colliding prefixes), default or configured storage-dir; "
+            "non-trivial = some session changed the storage directory")
+for _p in ("C02", "C08", "C09", "C10"):
+    PROPS[_p] = {"engines": [("assign", {"quick": 1500, "thorough": 40000})], "rule": ASSIGN_RULE,
+                 "assumptions": ["values are unmanaged-free with pairwise distinct dict keys (ValOk, WfVal — true of every Python value generated)",
+                                 "black leaves hand-written leaf expressions alone and formats generated code AST-preservingly (checked: the rewritten argument is parsed back and compared as a tree)"]}
+PROPS["C02"]["engines"] += [("site", {"quick": 800, "thorough": 20000}), ("align", {"quick": 800, "thorough": 20000})]
+PROPS["C11"]["engines"].append(("assign", {"quick": 1000, "thorough": 30000}))
+PROPS["C11"]["rule"] = ALIGN_RULE + " ; plus " + ASSIGN_RULE
+PROPS["C05"]["engines"].append(("assign", {"quick": 800, "thorough": 20000}))
+PROPS["C05"]["rule"] = SITE_RULE + " ; plus " + ASSIGN_RULE
+PROPS["C13"] = {"engines": [("external", {"quick": 48, "thorough": 600})], "rule": EXT_RULE, "cap_s": {"quick": 85, "thorough": 850},
+                "assumptions": ["SHA-256 enters only as an arbitrary function H; the invariants need no property of it except PrefixUnique for 'referenced => persisted'",
+                                "file-system operations rename / unlink / write are atomic per call"]}
+
 ENGINES = {
+    "assign": "x == snapshot(<display>) at any depth: categories, answer and rewritten tree, model vs real adapters; multi-run modes for C08 / C09",
+    "external": "histories of real sessions over outsourced data; storage directory after every session vs Model/External.lean; invariants checked on the directory",
     "rewrite": "whole-file rewriting: recorded replacements -> Model/Rewrite.lean newCode vs written file; byte/AST preservation outside snapshot() arguments; formatter-clean stays clean",
     "session": "real pytest sessions in throw-away projects against the gate model (Model/Session.lean); three-way run with Example.run_inline / run_pytest",
     "strlit": "str/bytes -> literal text -> value: model literal vs value_to_token, evalLit vs ast.literal_eval, written argument evaluated",
@@ -117,3 +139,17 @@ PROPS["C03"]["level_text"] = ("Theorems (Props/C03.lean, text = list of code poi
     "compiles, bytes (or AST) outside the snapshot() arguments are unchanged, only the permitted import is added.")
 PROPS["C20"]["level_text"] = ("Theorems clean_stays_clean (Idempotent fmt, file clean or format-command set => result is a fixed point of fmt), dirty_not_reformatted, dirty_outside_untouched, "
     "dirty_formatter_irrelevant. Idempotence of black is checked on every case by running black independently on the result.")
+
+PROPS["C02"]["level_text"] = ("Theorems (Props/C02.lean, every nesting depth, Managed old expression): eval_canon, merged_eq (the comparison is answered True), fix_repairs "
+    "(after fix the argument evaluates to a value equal to the observed one), no_fix_needed_iff, update_keeps_value; with C11 align_valid underneath. Correspondence: categories, answer "
+    "of the comparison and the rewritten tree, model vs implementation; direct oracle: the rewritten program passes with inline-snapshot disabled.")
+PROPS["C08"]["level_text"] = ("Theorems run_idem (same approved set twice = once), run_all_nothing_pending, run_fix_update_nothing_pending, run_pending (what stays pending after any run). "
+    "Correspondence + oracle: the same real run executed twice changes nothing the second time and reports no create / fix / trim.")
+PROPS["C09"]["level_text"] = ("Theorems run_compose (run F2 after run F1 = run (F1 u F2), every depth), order_independent, run_commute. Correspondence + oracle: every order of approving "
+    "fix and update one at a time ends in the same tree as approving both at once (real runs).")
+PROPS["C10"]["level_text"] = ("Theorems unmanaged_untouched (the unmanaged nodes of the result form a sublist of those of the input, for every F, e, n), star_freezes(_dict), "
+    "unmanaged_leaf_fixed_point, fstr_fixed_point, managed_siblings_fixed. Correspondence: trees with unmanaged leaves at every position; oracle: their source text survives verbatim.")
+PROPS["C11"]["level_text"] += " Plus (Props/C11b.lean) equal_kept: if the value did not change and update is not approved the argument expression is untouched at every depth."
+PROPS["C13"]["level_text"] = ("Model of the storage directory (Model/External.lean) compared after every real session of a history; direct oracle on the directory: name = SHA-256 of "
+    "content, no -new file survives a session start, persisted only if referenced, removed only by approved trim and only if unreferenced, missing / ambiguous prefix raises. "
+    "Theorems: see Props/C13.lean.")
